@@ -59,7 +59,10 @@ def make_recipe(rng, tier):
         # the user explored the detector on other data (other length, other scale) before wrapping it
         m = int(rng.integers(max(nmin, 2), max(nmin, 2) + 80))
         prefit = (gen_data(rng, m, 1, "mean_changes")[0] * float(rng.choice([0.2, 1.0, 30.0]))).tolist()
-    return {"det": spec, "X": X, "container": "series" if rng.random() < 0.5 else "frame",
+    int_dtype = bool(rng.random() < 0.2)
+    if int_dtype:
+        X = np.round(2 * X)  # count-like data, passed with an integer dtype
+    return {"det": spec, "X": X, "int_dtype": int_dtype, "container": "series" if rng.random() < 0.5 else "frame",
             "index": (INDEX_KINDS + ["datetime_ties"])[int(rng.integers(6))], "data_kind": kind,
             "prefit": prefit}
 
@@ -77,14 +80,18 @@ def _fitted_state(obj):
 
 def exec_case(ctx, r):
     X = np.asarray(r["X"], dtype=float).reshape(-1, 1)
+    if r.get("int_dtype"):
+        X = X.astype(np.int64)
     n = X.shape[0]
     spec = r["det"]
     kw = spec["kw"]
     inner_spec = kw["change_detector"]
-    df = make_frame(X, r["index"])
+    df = make_frame(X, r["index"], dtype=str(X.dtype))
     data = df.iloc[:, 0] if r["container"] == "series" else df
     ctx.case()
     ctx.stat(f"cases[{inner_spec['cls']}]")
+    if r.get("int_dtype"):
+        ctx.stat("cases[int64 data]")
     label = f"{short(spec)} X[{n}] {r['container']} index={r['index']} data={r['data_kind']}"
     sub = "anomaliser"
     I.drain()
